@@ -12,7 +12,7 @@ from core import guarded, require
 ID = "C17"
 LEVEL = "exploration"
 LEVEL_TEXT = (
-    "Two-sided agreement (required <= digest <= allowed) with an independent reference on every sequence over a small alphabet up to length 6 (quick) / 9-10 (thorough) x patterns x a 192-point parameter grid, exhaustively, plus random long sequences."
+    "Two-sided agreement (required <= digest <= allowed) with an independent reference on every sequence over a small alphabet up to length 6 (quick) / 10-11 (thorough) x patterns x a 192-point parameter grid, exhaustively, plus random long sequences."
 )
 TECHNIQUE = (
     "exhaustive enumeration of all sequences over a small alphabet x enzyme patterns x a parameter grid, plus "
@@ -22,7 +22,7 @@ TECHNIQUE = (
 RULE = (
     "enumerated case = (sequence, pattern); each case sweeps the grid missed 0-3 x min 1-4 x max {min, 4|6, 50} x clip x "
     "semi. quick: all sequences over {K,P,M,A} of length 1-6 x 3 patterns; thorough: all sequences over {K,P,A} with "
-    "optional leading M up to length 9 x 4 patterns. Random case = sequence up to length 120 over 20 residues x "
+    "optional leading M up to length 10 x 4 patterns. Random case = sequence up to length 120 over 20 residues x "
     "drawn pattern and parameters. Non-trivial: >=2 cleavage sites inside the sequence or a match ending at the last "
     "residue or a leading M with clip. Distinct = distinct (sequence, pattern, parameters)."
 )
@@ -37,7 +37,7 @@ PATTERNS = ["[KR]", "[KR](?!P)", "K", "(?<=[KR])(?!P)", "[FWY]", "KP|K"]
 def budget(tier):
     if tier == "quick":
         return {"examples": 2400, "shards": 16, "time_s": 60}
-    return {"examples": 48000, "shards": 16, "time_s": 900}
+    return {"examples": 200000, "shards": 16, "time_s": 1500}
 
 
 def digest_ref(seq, pattern, missed, min_len, max_len, clip, semi):
@@ -149,7 +149,7 @@ def enumerate_cases(tier):
     if tier == "quick":
         alpha, maxlen, pats, gmax, lead = "KPMA", 6, PATTERNS[:3], 4, [""]
     else:
-        alpha, maxlen, pats, gmax, lead = "KPA", 9, PATTERNS[:4], 6, ["", "M"]
+        alpha, maxlen, pats, gmax, lead = "KPA", 10, PATTERNS[:4], 6, ["", "M"]
     for L in range(1, maxlen + 1):
         for tup in itertools.product(alpha, repeat=L):
             s = "".join(tup)
@@ -161,7 +161,7 @@ def enumerate_cases(tier):
 def exhaustive_claim(tier):
     if tier == "quick":
         return "all sequences over {K,P,M,A} of length 1-6 x patterns [KR], [KR](?!P), K x grid missed 0-3 x min 1-4 x max {min,4,50} x clip x semi"
-    return "all sequences over {K,P,A} (optionally with leading M) of length 1-9(10) x 4 patterns x grid missed 0-3 x min 1-4 x max {min,6,50} x clip x semi"
+    return "all sequences over {K,P,A} (optionally with leading M) of length 1-10(11) x 4 patterns x grid missed 0-3 x min 1-4 x max {min,6,50} x clip x semi"
 
 
 AA20 = "ACDEFGHIKLMNPQRSTVWY"
